@@ -16,6 +16,7 @@ import (
 	"encoding/binary"
 	"math/big"
 
+	"github.com/nspcc-dev/neo-go/pkg/crypto/hash"
 	"github.com/nspcc-dev/neo-go/pkg/encoding/bigint"
 	"github.com/nspcc-dev/neo-go/pkg/vm"
 	"github.com/nspcc-dev/neo-go/pkg/vm/opcode"
@@ -109,6 +110,7 @@ type gen struct {
 	didHost bool // a hostile target was really emitted
 	open    map[int]bool
 	fnAt    map[int]int // invocation depth -> body start of the function running there
+	subs    []subScript
 }
 
 // flavors bias the action mix.
@@ -122,13 +124,27 @@ const (
 	nFlavors
 )
 
-func newGen(r *rng.R) *gen {
-	g := &gen{r: r, buf: make([]byte, genBufSize), tramp: map[int]trampInfo{}, tries: map[int][]*tryRec{}, open: map[int]bool{}, fnAt: map[int]int{}}
+func newGen(r *rng.R, subs []subScript, preArgs int) *gen {
+	g := &gen{r: r, subs: subs, buf: make([]byte, genBufSize), tramp: map[int]trampInfo{}, tries: map[int][]*tryRec{}, open: map[int]bool{}, fnAt: map[int]int{}}
 	for i := range g.buf {
 		g.buf[i] = byte(opcode.RET)
 	}
 	g.v = vm.New()
+	installLoader(g.v, subs)
 	g.v.Load(g.buf)
+	for range preArgs {
+		// stand-ins for the arguments a caller will pass
+		switch r.Intn(5) {
+		case 0:
+			g.v.Estack().PushItem(stackitem.NewArray([]stackitem.Item{stackitem.Null{}}))
+		case 1:
+			g.v.Estack().PushItem(stackitem.NewMap())
+		case 2:
+			g.v.Estack().PushItem(stackitem.NewStruct(nil))
+		default:
+			g.v.Estack().PushItem(stackitem.NewBigInteger(big.NewInt(int64(r.Intn(5)))))
+		}
+	}
 	g.replay = 1500
 	g.prevD = 1
 	return g
@@ -206,6 +222,16 @@ func (g *gen) step() {
 // sync runs the scratch VM until it is about to execute the frontier.
 func (g *gen) sync() bool {
 	for !g.stopped {
+		if p := g.v.Context().Program(); len(p) != len(g.buf) || &p[0] != &g.buf[0] {
+			// inside a loaded sub-script: just run it
+			g.replay--
+			if g.replay < 0 {
+				g.stopped = true
+				return false
+			}
+			g.step()
+			continue
+		}
 		ip := g.v.Context().NextIP()
 		if ip == g.n {
 			return true
@@ -1153,6 +1179,26 @@ func (g *gen) actCallExisting() bool {
 	return g.ins(opcode.CALLL, le32(rel)...)
 }
 
+// actCallScript loads a sub-script as a new script context (own evaluation
+// stack, own static slots), passing shared items as arguments.
+func (g *gen) actCallScript() bool {
+	if len(g.subs) == 0 || len(g.v.Istack()) > 12 {
+		return g.actCall()
+	}
+	k := g.r.Intn(len(g.subs))
+	nargs := g.subs[k].NArgs
+	if g.r.Chance(1, 10) {
+		nargs = g.r.Intn(4)
+	}
+	for range nargs {
+		if !g.pushValue() {
+			return false
+		}
+	}
+	mode := []int{ldHash, ldHash, ldRet, ldRet, ldDynamic, ldDynamic, ldFlags, ldFlags, ldVoid}[g.r.Intn(9)]
+	return g.ins(opcode.SYSCALL, le32(int(int32(loaderID(k, mode, nargs))))...)
+}
+
 // actRecursion calls the innermost open function again: depth grows until a
 // limit (invocation depth or item count) faults the script.
 func (g *gen) actRecursion() bool {
@@ -1377,13 +1423,13 @@ func (g *gen) actHostile() bool {
 // ---------------------------------------------------------------- driver
 
 var flavorWeights = [nFlavors][]int{
-	//            push cmpd app set pick rem cont has pack shuf slot num byt lim call callx ret try endt thr jmp loop
-	flMixed:       {6, 6, 8, 8, 4, 4, 8, 2, 5, 8, 8, 5, 4, 2, 4, 2, 3, 4, 4, 3, 2, 2},
-	flCollections: {4, 8, 14, 14, 5, 7, 14, 2, 8, 8, 10, 1, 1, 2, 3, 1, 2, 2, 2, 2, 1, 2},
-	flControl:     {5, 4, 5, 5, 3, 2, 4, 1, 2, 5, 8, 2, 1, 1, 10, 5, 8, 10, 9, 8, 5, 4},
-	flNumeric:     {6, 1, 1, 1, 1, 0, 1, 1, 1, 6, 4, 30, 6, 3, 2, 1, 1, 1, 1, 1, 3, 2},
-	flBytes:       {6, 1, 1, 3, 3, 0, 2, 2, 1, 6, 4, 5, 30, 3, 2, 1, 1, 1, 1, 1, 2, 2},
-	flLimits:      {3, 4, 8, 6, 2, 3, 10, 1, 4, 4, 5, 3, 3, 20, 3, 1, 2, 3, 3, 2, 1, 3},
+	//            push cmpd app set pick rem cont has pack shuf slot num byt lim call callx ret try endt thr jmp loop script
+	flMixed:       {6, 6, 8, 8, 4, 4, 8, 2, 5, 8, 8, 5, 4, 2, 4, 2, 3, 4, 4, 3, 2, 2, 6},
+	flCollections: {4, 8, 14, 14, 5, 7, 14, 2, 8, 8, 10, 1, 1, 2, 3, 1, 2, 2, 2, 2, 1, 2, 6},
+	flControl:     {5, 4, 5, 5, 3, 2, 4, 1, 2, 5, 8, 2, 1, 1, 10, 5, 8, 10, 9, 8, 5, 4, 12},
+	flNumeric:     {6, 1, 1, 1, 1, 0, 1, 1, 1, 6, 4, 30, 6, 3, 2, 1, 1, 1, 1, 1, 3, 2, 2},
+	flBytes:       {6, 1, 1, 3, 3, 0, 2, 2, 1, 6, 4, 5, 30, 3, 2, 1, 1, 1, 1, 1, 2, 2, 2},
+	flLimits:      {3, 4, 8, 6, 2, 3, 10, 1, 4, 4, 5, 3, 3, 20, 3, 1, 2, 3, 3, 2, 1, 3, 4},
 }
 
 func (g *gen) action() bool {
@@ -1446,8 +1492,10 @@ func (g *gen) action() bool {
 		return g.actThrow()
 	case 20:
 		return g.actJump()
-	default:
+	case 21:
 		return g.actLoopStart()
+	default:
+		return g.actCallScript()
 	}
 }
 
@@ -1476,20 +1524,29 @@ func operandLen(op opcode.Opcode) int {
 	return 0
 }
 
-// genTyped produces one script.
-func genTyped(r *rng.R) (script []byte, flavor int, hostile bool) {
-	g := newGen(r)
+// genOne produces one script; asSub > 0 makes it a sub-script expecting asSub-1 arguments.
+func genOne(r *rng.R, subs []subScript, asSub int) (script []byte, flavor int, hostile bool) {
+	pre := 0
+	if asSub > 0 {
+		pre = asSub - 1
+	}
+	g := newGen(r, subs, pre)
 	g.flavor = r.Weighted([]int{4, 5, 3, 2, 2, 3})
 	g.hostile = r.Chance(1, 12)
 	actions := 8 + r.Intn(40)
 	if r.Chance(1, 10) {
 		actions = 60 + r.Intn(120)
 	}
+	if asSub > 0 {
+		actions = 3 + r.Intn(16)
+	}
 	// prologue
 	if r.Chance(5, 6) {
 		g.ins(opcode.INITSSLOT, byte(g.slotCount()))
 	}
-	if r.Chance(2, 3) {
+	if asSub > 0 && pre > 0 && r.Chance(3, 4) {
+		g.ins(opcode.INITSLOT, byte(g.slotCount()-1), byte(pre))
+	} else if r.Chance(2, 3) {
 		g.ins(opcode.INITSLOT, byte(g.slotCount()), 0)
 	}
 	g.body = g.n
@@ -1497,7 +1554,7 @@ func genTyped(r *rng.R) (script []byte, flavor int, hostile bool) {
 		g.action()
 	}
 	// epilogue: unwind open constructs so that many scripts HALT
-	if !g.stopped && r.Chance(3, 4) {
+	if !g.stopped && (asSub > 0 || r.Chance(3, 4)) {
 		for i := 0; i < 40 && !g.stopped && g.room(); i++ {
 			if g.loop != nil {
 				g.loop.left = 0
@@ -1515,6 +1572,17 @@ func genTyped(r *rng.R) (script []byte, flavor int, hostile bool) {
 			break
 		}
 	}
+	if asSub > 0 && !g.stopped && g.room() {
+		// shape the return values: one value holding everything, nothing, or as is
+		switch r.Intn(6) {
+		case 0, 1, 2:
+			_ = g.ins(opcode.DEPTH) && g.ins(opcode.PACK)
+		case 3:
+			g.ins(opcode.CLEAR)
+		case 4:
+			_ = g.ins(opcode.DEPTH) && g.ins(opcode.PACKSTRUCT) && g.ins(opcode.DUP)
+		}
+	}
 	// trampolines may point at the frontier: keep it inside the script; the ones that
 	// were never reached lead to the final RET.
 	for ip := range g.tramp {
@@ -1523,4 +1591,24 @@ func genTyped(r *rng.R) (script []byte, flavor int, hostile bool) {
 	g.buf[g.n] = byte(opcode.RET)
 	g.n++
 	return append([]byte(nil), g.buf[:g.n]...), g.flavor, g.didHost
+}
+
+// genTyped produces one single-script case.
+func genTyped(r *rng.R) (script []byte, flavor int, hostile bool) {
+	return genOne(r, nil, 0)
+}
+
+// genNested produces a main script plus the sub-scripts it (and later
+// sub-scripts) can load as separate script contexts.
+func genNested(r *rng.R) (script []byte, subs []subScript, flavor int, hostile bool) {
+	n := 1 + r.Intn(3)
+	for i := 0; i < n; i++ {
+		na := r.Intn(4)
+		sc, _, h := genOne(r, subs, 1+na)
+		hostile = hostile || h
+		subs = append(subs, subScript{Script: sc, NArgs: na, Hash: hash.Hash160(sc)})
+	}
+	var h bool
+	script, flavor, h = genOne(r, subs, 0)
+	return script, subs, flavor, hostile || h
 }
